@@ -53,7 +53,12 @@ const BOUNDS: [f64; 5] = [-1.0, 0.0, 1.0, 2.5, f64::INFINITY];
 fn hist_direct(ctx: &Ctx, res: &mut PartResult, maxlen: usize) {
     res.engine = "E3 exhaustive bound lists x sample sequences x batchings on the real storage Histogram".into();
     let mut states = vseq::States::new();
-    let bound_lists = subsets_ascending(&BOUNDS, 3);
+    let mut bound_lists = subsets_ascending(&BOUNDS, 3);
+    // beyond the small lists: repeated bounds (ascending, not strictly), a long list (12 bounds: whatever search a
+    // histogram uses has to get past a handful of elements), a list of infinities only
+    bound_lists.push(vec![1.0, 1.0, 2.5]);
+    bound_lists.push(vec![-2.0, -1.0, -0.5, 0.0, 0.25, 0.5, 1.0, 2.0, 2.5, 3.0, 100.0, f64::INFINITY]);
+    bound_lists.push(vec![f64::NEG_INFINITY, f64::INFINITY]);
     let comps: Vec<Vec<Vec<usize>>> = (0..=maxlen).map(compositions).collect();
     let replay = ctx.replay.clone();
     for (bi, bounds) in bound_lists.iter().enumerate() {
@@ -587,7 +592,7 @@ fn main() {
     driver::main(CheckDef {
         prop: "C15",
         level: "model_checking",
-        rule: "histogram: all ascending bound lists of <= 3 bounds over {-1,0,1,2.5,+inf} x all sample sequences up to the stated length over {-2,-1,0,0.5,1,2.5,3,NaN,+inf,-inf} x all batchings into record()/record_many() calls on the real storage Histogram, and through render() with renders between batches; matchers: all override sets up to the stated size over {Full,Prefix,Suffix} x {a,ab,b,a.b,1a} with/without global buckets x all names of length <= 3 over {a,b,.,1} (distinct bucket lists identify the winning matcher); rolling summary: all non-decreasing sample timelines up to the stated length over {0,1,d-1,d,d+1,W-d,W-1,W,W+1,2W} x all later snapshot times (millisecond resolution), 6 bucket configurations (3x20s, 1x10s, 2x7s and the fractional 2x1.5s, 4x250ms, 3x2.5s), 2 time bases, under quanta's mock clock; distinct = distinct bucket vectors / (type, winner) / quantile triples",
+        rule: "histogram: all ascending bound lists of <= 3 bounds over {-1,0,1,2.5,+inf} (+ a list with a repeated bound, a 12-bound list, {-inf,+inf}) x all sample sequences up to the stated length over {-2,-1,0,0.5,1,2.5,3,NaN,+inf,-inf} x all batchings into record()/record_many() calls on the real storage Histogram, and through render() with renders between batches; matchers: all override sets up to the stated size over {Full,Prefix,Suffix} x {a,ab,b,a.b,1a} with/without global buckets x all names of length <= 3 over {a,b,.,1} (distinct bucket lists identify the winning matcher); rolling summary: all non-decreasing sample timelines up to the stated length over {0,1,d-1,d,d+1,W-d,W-1,W,W+1,2W} x all later snapshot times (millisecond resolution), 6 bucket configurations (3x20s, 1x10s, 2x7s and the fractional 2x1.5s, 4x250ms, 3x2.5s), 2 time bases, under quanta's mock clock; distinct = distinct bucket vectors / (type, winner) / quantile triples",
         assumptions: &["matcher reference is on the names as the user writes them; cases where only sanitisation makes a matcher apply are left unjudged", "rolling summary oracle is exactly the property: quantiles within [min,max](1±alpha) of samples newer than now-W; empty allowed only when no sample is newer than now-(W-d)"],
         parts,
         run,
